@@ -65,6 +65,20 @@ def gen_history(rng, tag, shipped):
                        ["convert", ["i", 2], ["pow", ["u", o[4]], 2], ["pow", ["u", o[5]], 2]], ["convert", ["i", 2], ["pow", ["u", o[5]], 3], ["pow", ["u", o[4]], 3]],
                        ["lt", ["i", 1], ["mul", ["u", o[2]], ["u", o[4]]], ["i", 1], ["mul", ["u", o[3]], ["u", o[5]]]]]
     defs = defs + odd_defs
+    # two units declared in terms of one another (and one of them against shipped units): questions about either one inside
+    # compounds - some of which are legitimately refused - must not change what is answered about the other
+    mutual_queries = []
+    if shipped and rng.random() < 0.8:
+        sn, pz = f"zq{tag}sn", f"zq{tag}pz"
+        newton_t = ["mul", ["u", "kilogram"], ["div", ["u", "meter"], ["pow", ["u", "second"], 2]]]
+        defs = defs + [["define", sn, sn, ["dimname", "force"]], ["define", pz, pz, ["dimname", "pressure"]]]
+        extra.append(["declare", ["u", sn], ["i", 1000], newton_t])
+        extra.append(["declare", ["u", pz], ["i", 1], ["div", ["u", sn], ["pow", ["u", "meter"], 2]]])
+        extra.append(["declare", ["u", sn], ["i", 1], ["mul", ["u", pz], ["pow", ["u", "meter"], 2]]])
+        mutual_queries = [["convert", ["i", 2], ["mul", ["u", sn], ["u", "second"]], ["mul", ["u", "kilogram"], ["div", ["u", "meter"], ["u", "second"]]]],
+                          ["convert", ["i", 3], ["mul", ["u", pz], ["u", "second"]], ["div", ["u", "kilogram"], ["mul", ["u", "meter"], ["u", "second"]]]],
+                          ["convert", ["i", 5], ["u", sn], newton_t], ["convert", ["i", 5], ["u", pz], ["div", newton_t, ["pow", ["u", "meter"], 2]]],
+                          ["eq", ["i", 1], ["u", sn], ["i", 1], ["mul", ["u", pz], ["pow", ["u", "meter"], 2]]]]
     # ratios stated as Decimals, asked with Decimal magnitudes while the program changes the ambient decimal precision in
     # between (a report printed with 5 digits, then the exact computation): what was asked under a coarse context must not
     # be what is answered later under the ordinary one
@@ -124,6 +138,9 @@ def gen_history(rng, tag, shipped):
 
     finals = [rand_query() for _ in range(rng.randint(6, 12))]
     finals += [reverse(q) for q in finals if rng.random() < 0.4]   # a search that fails one way may succeed the other way
+    if mutual_queries:
+        finals += rng.sample(mutual_queries, len(mutual_queries))
+        odd_queries = odd_queries + mutual_queries      # ... and they are asked in between, in another order, too
     ops1 = list(defs)
     if rng.random() < 0.5:
         ops1 += finals  # every final query is first asked before anything has been declared
